@@ -1250,7 +1250,7 @@ func (g *g) heredoc(n string) string {
 	}
 	nl := []int{1, 2, 0, 3, 4}[g.ch.Intn(5, "hd_lines")]
 	for i := 0; i < nl; i++ {
-		k := g.ch.Intn(19, "hd_line")
+		k := g.ch.Intn(20, "hd_line")
 		line := ""
 		if k == 14 && h.Quoted {
 			k = 0
@@ -1266,6 +1266,44 @@ func (g *g) heredoc(n string) string {
 				lit += decoy + "\n"
 				body.WriteString(decoy + "\n")
 				g.f("heredoc_line_with_literal_parts_of_delimiter")
+				continue
+			}
+		}
+		if k == 19 {
+			// the delimiter text at the beginning of a line that goes on with an expansion or an escape
+			k = 0
+			if !h.Quoted && !g.bq && !g.o.NoSubst && form < 8 {
+				lit += delim
+				switch g.ch.Intn(6, "hd_head_delim") {
+				case 0:
+					flush()
+					ps = append(ps, skel.Param(false, "a", "", skel.Nil))
+					line = "$a"
+				case 1:
+					flush()
+					ps = append(ps, skel.Param(true, "a", "", skel.Nil))
+					line = "${a}"
+				case 2:
+					flush()
+					ps = append(ps, skel.Quote(`\`, []string{skel.Lit("$")}))
+					lit += "x"
+					line = `\$x`
+				case 3:
+					flush()
+					ps = append(ps, skel.CmdSubst(true, []string{skel.Cmd(skel.Simple(nil, []string{skel.Word([]string{skel.Lit("c")})}), nil)}))
+					line = "$(c)"
+				case 4:
+					flush()
+					ps = append(ps, skel.CmdSubst(false, []string{skel.Cmd(skel.Simple(nil, []string{skel.Word([]string{skel.Lit("c")})}), nil)}))
+					line = "`c`"
+				case 5:
+					flush()
+					ps = append(ps, skel.Quote(`\`, []string{skel.Lit(`\`)}))
+					line = `\\`
+				}
+				lit += "\n"
+				body.WriteString(delim + line + "\n")
+				g.f("heredoc_line_beginning_with_delimiter_then_expansion")
 				continue
 			}
 		}
@@ -1427,7 +1465,8 @@ func (g *g) heredoc(n string) string {
 	h.Delim = delim
 	if !h.Quoted && g.chance("hd_cont_before_delim", 10) {
 		// a line that is only a line continuation joins with the delimiter line
-		h.DelimPrefix = "\\\n"
+		// (one or several such lines)
+		h.DelimPrefix = strings.Repeat("\\\n", 1+g.ch.Intn(3, "hd_cont_lines"))
 		g.f("heredoc_continuation_line_before_delimiter")
 	}
 	if op == "<<-" {
